@@ -49,6 +49,14 @@ __CPROVER_ensures((vp_gk < hi && src->p[vp_gk] > 0) ==> (dst->p[vp_gk] > 0))    
 ;
 #endif
 
+/* std::accumulate(first, last, init): left fold with +.  ASSUMED contract: a deterministic function of the range
+ * content (uninterpreted); nothing else is known about the value. */
+T __CPROVER_uninterpreted_accumulate(const void *, size_t, size_t, T);
+T vp_accumulate(const vec_T *v, size_t lo, size_t hi, T init)
+__CPROVER_requires(lo <= hi && hi <= v->n)
+__CPROVER_assigns()
+__CPROVER_ensures(BEQ(__CPROVER_return_value, __CPROVER_uninterpreted_accumulate((const void *)v->p, lo, hi, init)))
+;
 /* std::lower_bound(first, last, value) on a range partitioned with respect to `element < value`:
  * returns the partition point r in [lo, hi]: every element before r is < value, the element at r is not.
  * ASSUMED contract (the library's binary search is not extracted); precondition = the range is sorted
